@@ -69,6 +69,9 @@ def factories(ctx):
                 continue
             nret += 1
             if not isinstance(v, Obj):
+                if isinstance(v, Other):
+                    # the returned object went through something the engine does not model: no verdict
+                    raise AnalysisError(f"UnitAI cannot interpret {q}: the factory returns an uninterpreted value {v!r}")
                 problems.append(f"returns {v!r}")
                 continue
             for attr, u in want[kind].items():
